@@ -118,8 +118,12 @@ func runWm(s WmScenario) ([]WmEvent, WmResult) {
 	}
 	var pw []*pendingWait
 	var wg sync.WaitGroup
+	// per client: 0 = still issuing calls, 1 = inside its WaitForMark (registered in pw), 2 = finished
+	state := make([]int, s.Procs+1)
+	setState := func(g, v int) { cmu.Lock(); state[g] = v; cmu.Unlock() }
 	client := func(g int, calls []WmCall, r *rand.Rand) {
 		defer wg.Done()
+		defer setState(g, 2)
 		for _, c := range calls {
 			switch c.Kind {
 			case "b", "d":
@@ -143,7 +147,9 @@ func runWm(s WmScenario) ([]WmEvent, WmResult) {
 				waits++
 				cmu.Unlock()
 				tr.add(WmEvent{Ev: "Inv", G: g, Kind: "w", Ts: c.Ts})
+				setState(g, 1)
 				err := w.WaitForMark(ctx, uint64(c.Ts))
+				setState(g, 0)
 				r := "nil"
 				if err != nil {
 					r = "ctx"
@@ -169,7 +175,7 @@ func runWm(s WmScenario) ([]WmEvent, WmResult) {
 	// quiesce: all Begin/Done calls returned => wait until the consumer has taken every mark
 	waitAll := make(chan struct{})
 	go func() { wg.Wait(); close(waitAll) }()
-	deadline := time.Now().Add(10 * time.Second)
+	deadline := time.Now().Add(60 * time.Second)
 	for {
 		cmu.Lock()
 		m := marks
@@ -189,8 +195,17 @@ func runWm(s WmScenario) ([]WmEvent, WmResult) {
 		default:
 			blocked = true
 		}
-		// every non-wait call has returned when marks == expect, or the remaining clients sit in waits
-		if (m == expect || !blocked) && n >= m {
+		// every Begin/Done call has returned and every client is finished or sits in a wait
+		cmu.Lock()
+		settled := true
+		for g := 1; g <= s.Procs; g++ {
+			if state[g] == 0 {
+				settled = false
+			}
+		}
+		cmu.Unlock()
+		_ = blocked
+		if m == expect && settled && n >= m {
 			break
 		}
 		if time.Now().After(deadline) {
@@ -200,7 +215,7 @@ func runWm(s WmScenario) ([]WmEvent, WmResult) {
 		time.Sleep(50 * time.Microsecond)
 	}
 	_, fin := wmProg.get(w)
-	for i := 0; i < 100000 && w.DoneUntil() < fin; i++ {
+	for i := 0; i < 600000 && w.DoneUntil() < fin; i++ {
 		time.Sleep(50 * time.Microsecond)
 	}
 	// waits at or below the mark must return by themselves
@@ -212,7 +227,7 @@ func runWm(s WmScenario) ([]WmEvent, WmResult) {
 		if uint64(p.ts) <= du {
 			select {
 			case <-p.done:
-			case <-time.After(3 * time.Second):
+			case <-time.After(30 * time.Second):
 			}
 		}
 	}
@@ -228,13 +243,13 @@ func runWm(s WmScenario) ([]WmEvent, WmResult) {
 		p.cancel()
 		select {
 		case <-p.done:
-		case <-time.After(3 * time.Second):
+		case <-time.After(30 * time.Second):
 			res.Stuck += fmt.Sprintf(" wait of client %d did not return after cancel", p.g)
 		}
 	}
 	select {
 	case <-waitAll:
-	case <-time.After(5 * time.Second):
+	case <-time.After(30 * time.Second):
 		res.Stuck += " clients did not finish"
 	}
 	cmu.Lock()
